@@ -29,6 +29,8 @@ def configs(tier, seed):
            dict(name="screen r=2 a=2 +0 names symbolic", h="screen", rows=2, arity=2, extra=0, cycles=1, treat="fixed-doses", samples=C, plates="one"),
            dict(name="space r=2 a=1", h="space", rows=2, arity=1, treat=T, samples=T, plates="one"),
            dict(name="screen after Plate.merge", h="merged", rows=6),
+           dict(name="screen r=3 a=2 mappings of 300 entries (ids past 256 in use)", h="screen", rows=3, arity=2, extra=0, cycles=2, treat=C, samples=C,
+                plates="each", big_map=300),
            # every observation independently finite / NaN / +inf / -inf / -0.0, observed or not (three plates)
            dict(name="screen r=3 a=1 observation values of every float class", h="screen", rows=3, arity=1, extra=0, cycles=2, treat=C, samples=C,
                 plates="each", special=True)]
@@ -95,6 +97,17 @@ def _build(ctx, data, cfg):
         big = data.Screen(treatment_names=np.array(tn), treatment_doses=np.array(td, dtype=float),
                           sample_names=np.array(sn), plate_names=np.array(pn), control_treatment_name=ctrl)
         kw = dict(treatment_mapping=big.treatment_mapping, sample_mapping=big.sample_mapping)
+    if cfg.get("big_map"):
+        # id spaces far larger than the rows (ids past 255 / 256 in use by the rows): explicit dense mappings
+        N = cfg["big_map"]
+        snames = sorted(set(sn[:R])) + ["zs%03d" % i for i in range(N)]
+        kw["sample_mapping"] = (np.array(snames, dtype=str), np.array(list(range(len(snames)))[::-1], dtype=int))
+        conds = sorted({(tn[r][c], td[r][c]) for r in range(R) for c in range(A) if tn[r][c] != ctrl and td[r][c] > 0})
+        ctrls = sorted({(tn[r][c], td[r][c]) for r in range(R) for c in range(A) if tn[r][c] == ctrl or td[r][c] <= 0})
+        mn = [c[0] for c in conds] + ["zt%03d" % i for i in range(N)] + [c[0] for c in ctrls]
+        md = [c[1] for c in conds] + [1.0] * N + [c[1] for c in ctrls]
+        mi = list(range(len(conds) + N))[::-1] + [-1] * len(ctrls)
+        kw["treatment_mapping"] = (np.array(mn, dtype=str), np.array(md, dtype=float), np.array(mi, dtype=int))
     obs = [(ctx.float_bits if cfg.get("special") else ctx.real_bits)("ob%d" % r) for r in range(R)]
     # per-plate mask: rows of one plate share the flag of the first row of that plate
     flags = [ctx.is_true(ctx.bool("mk%d" % r)) for r in range(R)]
